@@ -1479,7 +1479,7 @@ def program_features(program):
 TYPE_NAMES = ["app:a", "app:b", "app:c", "sys:x", "t", ""]
 
 
-def programs(max_nodes=12, faults=False, remote=True, kinds=None, msg_kinds=None, raises=True, preserve=True, max_depth=5, reenter=True, names=None, values=None, remote_weight=1, min_depth=1, extras=True, tb_outside=False):
+def programs(max_nodes=12, faults=False, remote=True, kinds=None, msg_kinds=None, raises=True, preserve=True, max_depth=5, reenter=True, names=None, values=None, remote_weight=1, min_depth=1, extras=True, tb_outside=False, status_fields=False):
     """
     Strategy for programs.  Depth is drawn first so that deep nestings are
     as likely as shallow ones; `max_nodes` bounds the body sizes.
@@ -1488,12 +1488,19 @@ def programs(max_nodes=12, faults=False, remote=True, kinds=None, msg_kinds=None
     msg_kinds = msg_kinds or MSG_KINDS
     exc_idx = st.integers(0, len(EXC_TABLE) - 1)
     sers = st.lists(st.sampled_from(SER_NAMES), min_size=1, max_size=3)
+    def build_msg(kind, mtype, fields, typed, status):
+        if status is not None and kind != "typed":
+            # an ordinary message may carry a user field of this name: only action_type marks an action message
+            fields = dict(fields, action_status=status)
+        return {"op": "msg", "kind": kind, "mtype": mtype, "fields": fields, "typed": typed}
+
     msg = st.builds(
-        lambda kind, mtype, fields, typed: {"op": "msg", "kind": kind, "mtype": mtype, "fields": fields, "typed": typed},
+        build_msg,
         st.sampled_from(msg_kinds),
         st.sampled_from(TYPE_NAMES),
         V.field_dicts(3, names, values),
         sers,
+        st.sampled_from([None, None, None, "succeeded", "started", "failed", "queued"]) if status_fields else st.none(),
     )
     tb = exc_idx.map(lambda i: {"op": "tb", "exc": i})
     # exceptions whose class has an extractor registered out of the box (errno) are drawn more often
